@@ -3,6 +3,7 @@ package c05
 import (
 	"bufio"
 	"bytes"
+	"compress/zlib"
 	"encoding/hex"
 	"encoding/json"
 	"fmt"
@@ -228,6 +229,146 @@ func (c *child) decodeLogged(payload []byte) {
 	default:
 		c.res.Classes["logger-enabled/outcome:error"]++
 	}
+}
+
+// ---- compressed frames (gap review; seeded/C05-2) ----
+//
+// With compression enabled (SetCompressionThreshold(t), t >= 0 - the state of every connection after login) the frame
+// body is "VarInt claimed uncompressed size" + zlib stream (or, claimed 0, the plain payload). That part of
+// Decoder.Decode runs OUTSIDE util.RecoverFunc, so a panic there kills the process, and it allocates the claimed size
+// before inflating. The compression layer does not depend on the packet type; it is enumerated once per
+// (state, direction) for the lowest and the highest protocol.
+
+const zFixedCap = 8 << 20 // vanilla's maximum uncompressed packet size: the fixed cap of the compression layer
+
+func budgetZ(n int) uint64 { return uint64(perByteBudget*n + fixedBudget + zFixedCap) }
+
+func zlibOf(b []byte) []byte {
+	var buf bytes.Buffer
+	w := zlib.NewWriter(&buf)
+	_, _ = w.Write(b)
+	_ = w.Close()
+	return buf.Bytes()
+}
+
+func (c *child) zDecoder(threshold int) *codec.Decoder {
+	d := codec.NewDecoder(bytes.NewReader(nil), c.cell.Direction, logr.Discard())
+	d.SetState(c.cell.State)
+	d.SetProtocol(c.cell.Protocol)
+	d.SetCompressionThreshold(threshold)
+	return d
+}
+
+// runZ decodes one frame body (claimed size + data) with compression threshold t.
+func (c *child) runZ(dz *codec.Decoder, t int, body []byte, exact bool) {
+	c.caseNo++
+	if c.caseNo < c.from || (c.only > 0 && c.caseNo != c.only) {
+		return
+	}
+	if c.trace {
+		fmt.Fprintf(c.out, "CASE %d z%d:%s\n", c.caseNo, t, hex.EncodeToString(body))
+		c.out.Flush()
+	}
+	c.res.Evals++
+	if len(body) > 2 {
+		c.res.Nontriv++
+	}
+	dirName := "compressed-frame/" + c.cell.Direction.String()
+	tag := []byte(fmt.Sprintf("z%d:", t))
+	asPayload := append(tag, []byte(hex.EncodeToString(body))...)
+	decode := func() {
+		c.frame = append(c.frame[:0], varint(len(body))...)
+		c.frame = append(c.frame, body...)
+		dz.SetReader(bytes.NewReader(c.frame))
+		ctx, err := dz.Decode()
+		switch {
+		case err == nil && ctx == nil:
+			c.violationZ(dirName+"/neither-packet-nor-error", fmt.Sprintf("%s threshold %d: Decoder.Decode returned (nil, nil) for frame body %s", c.cell, t, hx(body)), asPayload)
+		case err == nil:
+			c.res.Classes["compressed-frame/outcome:packet"]++
+		case ctx != nil:
+			c.res.Classes["compressed-frame/outcome:packet+left-bytes-error"]++
+		default:
+			c.res.Classes["compressed-frame/outcome:error"]++
+		}
+	}
+	var d uint64
+	if exact {
+		before := exactAlloc()
+		decode()
+		d = exactAlloc() - before
+	} else {
+		b0 := c.allocNow()
+		decode()
+		d = c.allocNow() - b0
+		if d > budgetZ(len(body))/2 {
+			before := exactAlloc()
+			decode()
+			d = exactAlloc() - before
+		}
+	}
+	if d > budgetZ(len(body)) {
+		c.violationZ(dirName+"/alloc-blowup", fmt.Sprintf("%s threshold %d: decoding a %d-byte compressed frame body allocated %d bytes (budget 64*len + 4 MiB + the 8 MiB vanilla cap = %d)\n  frame body (claimed size + data): %s",
+			c.cell, t, len(body), d, budgetZ(len(body)), hx(body)), asPayload)
+	}
+}
+
+// violationZ records a violation whose replay payload is the tagged string "z<threshold>:<hex of the frame body>".
+func (c *child) violationZ(key, desc string, tagged []byte) {
+	if c.seenKey[key] {
+		c.res.Classes["violation-repeat:"+key]++
+		return
+	}
+	c.seenKey[key] = true
+	c.res.Vios = append(c.res.Vios, vio{key, desc, rp{c.cell.String(), string(tagged)}})
+}
+
+func (c *child) compressedFrames(inners [][]byte) {
+	const mib = 1 << 20
+	n := 0
+	for _, t := range []int{0, 1, 256} {
+		dz := c.zDecoder(t)
+		for _, inner := range inners {
+			bigger := append(append([]byte(nil), inner...), make([]byte, 100)...)
+			z := zlibOf(inner)
+			corrupt := append([]byte(nil), z...)
+			corrupt[len(corrupt)-1] ^= 1
+			bodies := [][]byte{
+				z,                                       // valid stream
+				z[:len(z)/2],                            // truncated stream
+				append(append([]byte(nil), z...), 0x00), // trailing byte after the stream
+				zlibOf(bigger),                          // inflates to more than the inner length
+				z[:2],                                   // zlib header only
+				{},                                      // nothing
+				inner,                                   // not compressed at all
+				{0xFF, 0xFF, 0xFF, 0xFF, 0xFF, 0xFF, 0xFF, 0xFF}, // garbage
+				corrupt, // wrong checksum
+			}
+			L := len(inner)
+			claims := map[int]bool{}
+			var claimEnc [][]byte
+			for _, v := range []int{0, 1, t - 1, t, t + 1, L - 1, L, L + 1, L + 100, 2*mib - 1, 2 * mib, 2*mib + 1, 8*mib - 1, 8 * mib, 8*mib + 1,
+				1<<31 - 1, -1, -L, -(1 << 31)} {
+				if !claims[v] {
+					claims[v] = true
+					claimEnc = append(claimEnc, varint(v))
+				}
+			}
+			claimEnc = append(claimEnc, []byte{0x80, 0x80, 0x80, 0x80, 0x80, 0x80}, []byte{0xFF}, []byte{})
+			for _, ce := range claimEnc {
+				for _, b := range bodies {
+					c.runZ(dz, t, append(append([]byte(nil), ce...), b...), false)
+					n++
+				}
+				c.heartbeat()
+			}
+		}
+	}
+	c.res.Classes["compressed-frame:(threshold x claimed-size x body) cases"] += int64(n)
+	// the batch bookkeeping of run() must not count what happened here
+	c.batch = c.batch[:0]
+	c.batchLg = c.batchLg[:0]
+	c.batchAt = c.allocNow()
 }
 
 func budget(n int) uint64 { return uint64(perByteBudget*n + fixedBudget) }
@@ -456,10 +597,31 @@ func (c *child) doCell(idx int, cell pktgen.Cell, firstOfRegistry bool) {
 			n += 257
 		}
 		c.res.Classes["unregistered-id:<=1 byte"] += int64(n)
+		// compression layer: once per (state, direction) for the lowest and the highest protocol
+		if cell.Protocol == minProto || cell.Protocol == maxProto {
+			inners := [][]byte{append([]byte(nil), id...), append(append([]byte(nil), id...), make([]byte, 600)...)}
+			if len(seeds) > 0 {
+				inners = append(inners, append(append([]byte(nil), id...), seeds[0].Data...))
+			}
+			c.compressedFrames(inners)
+		}
 	}
 	b, _ := json.Marshal(c.res)
 	fmt.Fprintf(c.out, "RES %s\n", b)
 	c.out.Flush()
+}
+
+var minProto, maxProto proto.Protocol
+
+func initProtoRange(cells []pktgen.Cell) {
+	for i, c := range cells {
+		if i == 0 || c.Protocol < minProto {
+			minProto = c.Protocol
+		}
+		if i == 0 || c.Protocol > maxProto {
+			maxProto = c.Protocol
+		}
+	}
 }
 
 func atoiEnv(k string) int { n, _ := strconv.Atoi(os.Getenv(k)); return n }
@@ -475,6 +637,7 @@ func runChild(r *vrt.R) {
 		from: atoiEnv("C05_FROM"), only: atoiEnv("C05_ONLY")}
 	c.sample[0].Name = "/gc/heap/allocs:bytes"
 	cells := pktgen.Cells()
+	initProtoRange(cells)
 	if rj := os.Getenv("C05_REPLAY"); rj != "" {
 		var x rp
 		_ = json.Unmarshal([]byte(rj), &x)
@@ -484,11 +647,23 @@ func runChild(r *vrt.R) {
 			c.out.Flush()
 			return
 		}
-		payload, _ := hex.DecodeString(x.Payload)
 		c.cell = cell
 		c.res = &cellResult{Classes: map[string]int64{}}
 		c.seenKey = map[string]bool{}
 		c.newDecoders()
+		if strings.HasPrefix(x.Payload, "z") { // compressed-frame case: "z<threshold>:<hex of the frame body>"
+			t, hexBody, _ := strings.Cut(x.Payload[1:], ":")
+			th, _ := strconv.Atoi(t)
+			body, _ := hex.DecodeString(hexBody)
+			fmt.Fprintf(c.out, "CELL -1\nCASE 1 %s\n", x.Payload)
+			c.out.Flush()
+			c.runZ(c.zDecoder(th), th, body, true)
+			b, _ := json.Marshal(c.res)
+			fmt.Fprintf(c.out, "RES %s\n", b)
+			c.out.Flush()
+			return
+		}
+		payload, _ := hex.DecodeString(x.Payload)
 		fmt.Fprintf(c.out, "CELL -1\nCASE 1 %s\n", x.Payload)
 		c.out.Flush()
 		before := exactAlloc()
@@ -761,6 +936,10 @@ func (p *parent) investigate(idx int) {
 		}
 		payload := cr.lastHex
 		rpd := rp{Cell: cell.String(), Payload: payload}
+		tn := tn
+		if strings.HasPrefix(payload, "z") {
+			tn = "compressed-frame/" + cell.Direction.String()
+		}
 		if cr.hung {
 			// confirm: the same case alone must hang again
 			again := spawn([]string{"C05_REPLAY=" + mustJSON(rpd)}, 10*time.Second, p.hard)
@@ -793,6 +972,9 @@ func runParent(r *vrt.R) {
 		cr := spawn([]string{"C05_REPLAY=" + mustJSON(x)}, 10*time.Second, p.hard)
 		cell, _ := pktgen.FindCell(x.Cell)
 		tn := pktgen.TypeName(cell.Type)
+		if strings.HasPrefix(x.Payload, "z") {
+			tn = "compressed-frame/" + cell.Direction.String()
+		}
 		switch {
 		case len(cr.results) > 0:
 			for _, res := range cr.results {
